@@ -17,7 +17,7 @@ import (
 //
 
 func (ip *Inode) shrinkFits(op *alloctxn.AllocTxn, nblk uint64) bool {
-	return op.Op.NDirty()+nblk < jrnl.LogBlocks
+	return op.Op.NDirty()+op.NBitmapBlocks()+nblk < jrnl.LogBlocks
 }
 
 func (ip *Inode) IsShrinking() bool {
@@ -63,12 +63,14 @@ func (ip *Inode) indshrink(op *alloctxn.AllocTxn, root common.Bnum, level uint64
 }
 
 // Frees as many blocks as possible, and returns if more shrinking is necessary.
-// 5: inode block, 2xbitmap block, indirect block, double indirect
+// 7: inode block; the freed block, its indirect block and the double indirect
+// block, and for each of the three a bitmap block that is not yet counted (the
+// blocks of a file can lie in the areas of any number of bitmap blocks)
 func (ip *Inode) Shrink(op *alloctxn.AllocTxn) bool {
 	verifAccess(ip, "Shrink")
 	util.DPrintf(1, "Shrink: from %d to %d\n", ip.ShrinkSize,
 		util.RoundUp(ip.Size, disk.BlockSize))
-	for ip.IsShrinking() && ip.shrinkFits(op, 5) {
+	for ip.IsShrinking() && ip.shrinkFits(op, 7) {
 		ip.ShrinkSize -= 1
 		if ip.ShrinkSize < NDIRECT {
 			ip.freeIndex(op, ip.ShrinkSize)
